@@ -841,6 +841,82 @@ func checkHostInfo(c *Check, p *Program) {
 			tcpEdge = true
 		}
 	})
+	if !(udpEdge && tcpEdge) {
+		// the code chosen first and stored once: Protocol = phi(UDP4 on the "udp" edge, TCP4 on the "tcp" edge)
+		instrsOf(hi, func(in ssa.Instruction) {
+			st, ok := in.(*ssa.Store)
+			if !ok || fieldOfAddr(st.Addr) != proto {
+				return
+			}
+			ph, ok := st.Val.(*ssa.Phi)
+			if !ok {
+				return
+			}
+			for i, e := range ph.Edges {
+				k, isK := constInt(e)
+				if !isK {
+					continue
+				}
+				pred := ph.Block().Preds[i]
+				facts := append(factsAt(pred), edgeFacts(pred, ph.Block())...)
+				isNet := func(sv string) bool {
+					return anyFact(facts, func(f Cmp) bool {
+						kc, ok := f.Y.(*ssa.Const)
+						return f.Op == token.EQL && ok && kc.Value != nil && kc.Value.ExactString() == `"`+sv+`"`
+					})
+				}
+				if isNet("udp") && k == udp4 {
+					udpEdge = true
+				}
+				if isNet("tcp") && k == tcp4 {
+					tcpEdge = true
+				}
+			}
+		})
+	}
+	if !(udpEdge && tcpEdge) {
+		// the mapping in a helper: Protocol = first result of h(address.Network()), h returning the code by name
+		instrsOf(hi, func(in ssa.Instruction) {
+			st, ok := in.(*ssa.Store)
+			if !ok || fieldOfAddr(st.Addr) != proto {
+				return
+			}
+			ex, ok := st.Val.(*ssa.Extract)
+			if !ok || ex.Index != 0 {
+				return
+			}
+			call, ok := ex.Tuple.(*ssa.Call)
+			if !ok || call.Common().StaticCallee() == nil || !p.InModule(call.Common().StaticCallee()) || len(call.Common().Args) != 1 {
+				return
+			}
+			if ac, isC := call.Common().Args[0].(*ssa.Call); !isC || !ac.Common().IsInvoke() || ac.Common().Method.Name() != "Network" {
+				return
+			}
+			h := call.Common().StaticCallee()
+			for _, r := range returnsOf(h) {
+				if len(r.Results) == 0 {
+					continue
+				}
+				k, isK := constInt(r.Results[0])
+				if !isK {
+					continue
+				}
+				facts := factsAt(r.Block())
+				isNet := func(sv string) bool {
+					return anyFact(facts, func(f Cmp) bool {
+						kc, ok := f.Y.(*ssa.Const)
+						return f.Op == token.EQL && ok && kc.Value != nil && kc.Value.ExactString() == `"`+sv+`"` && f.X == ssa.Value(h.Params[0])
+					})
+				}
+				if isNet("udp") && k == udp4 {
+					udpEdge = true
+				}
+				if isNet("tcp") && k == tcp4 {
+					tcpEdge = true
+				}
+			}
+		})
+	}
 	c.Decide(udpEdge && tcpEdge, "C16.T5", FuncName(hi)+" maps udp->UDP4, tcp->TCP4", p.Pos(hi.Pos()), "protocol set by network name", "HostInfoFromAddress does not map the network name to the protocol code")
 	usesTo4, storesPort := false, false
 	instrsOf(hi, func(in ssa.Instruction) {
